@@ -203,7 +203,7 @@ fn update_membership(
     height: u64,
 ) -> StdResult<Vec<SubMsg>> {
     // update their membership weight
-    let new = calc_weight(new_stake, cfg);
+    let new = calc_weight(new_stake, cfg)?;
     let old = MEMBERS.may_load(storage, &sender)?;
 
     // short-circuit if no change
@@ -230,12 +230,18 @@ fn update_membership(
     })
 }
 
-fn calc_weight(stake: Uint128, cfg: &Config) -> Option<u64> {
+fn calc_weight(stake: Uint128, cfg: &Config) -> StdResult<Option<u64>> {
     if stake < cfg.min_bond {
-        None
+        Ok(None)
     } else {
         let w = stake.u128() / (cfg.tokens_per_weight.u128());
-        Some(w as u64)
+        // a weight that does not fit 64 bits must not silently wrap around
+        if w > u64::MAX as u128 {
+            return Err(cosmwasm_std::StdError::generic_err(
+                "Weight exceeds u64 range",
+            ));
+        }
+        Ok(Some(w as u64))
     }
 }
 
